@@ -196,11 +196,30 @@ def popen_vh(args, **kw):
 
 
 def validate_traces(ctx, specsubdirs, module, cfg, lines, begin_marker='"ev":"begin"', max_rounds=6,
-                    timeout=1800, fname="trace.ndjson", jvm=()):
+                    timeout=1800, fname="trace.ndjson", jvm=(), chunk_bytes=150 << 20):
     """Validate concatenated ndjson traces (segments start with a begin event) against a Trace*.tla spec.
     Returns (rejected_segments, n_valid_segments, n_events).  On a rejection the offending segment is cut out and
-    the rest is validated again, so one rejection does not leave the remainder unexamined."""
+    the rest is validated again, so one rejection does not leave the remainder unexamined.
+    Very long inputs are validated in chunks of whole segments (TLC's JSON module reads a trace file into memory)."""
     lines = [ln if ln.endswith("\n") else ln + "\n" for ln in lines if ln.strip()]
+    if sum(len(x) for x in lines) > chunk_bytes:
+        chunks, cur, size = [], [], 0
+        for ln in lines:
+            if begin_marker in ln and size > chunk_bytes and cur:
+                chunks.append(cur)
+                cur, size = [], 0
+            cur.append(ln)
+            size += len(ln)
+        if cur:
+            chunks.append(cur)
+        if len(chunks) > 1:
+            rej, nv, nev = [], 0, 0
+            for ch in chunks:
+                r, v, e = validate_traces(ctx, specsubdirs, module, cfg, ch, begin_marker, max_rounds, timeout, fname, jvm, chunk_bytes=1 << 62)
+                rej += r
+                nv += v
+                nev += e
+            return rej, nv, nev
     nseg = sum(1 for ln in lines if begin_marker in ln)
     nev = len(lines)
     rejected = []
